@@ -53,8 +53,8 @@ size_t fread(void *p, size_t sz, size_t n, FILE *f) {
   (void)f;
   unsigned char *c = (unsigned char *)p;
   for (size_t i = 0; i < sz * n && i < 64; ++i) c[i] = (unsigned char)vin_int();
-#ifdef H_PNGBAD
-  return vin_range(0, 1) ? n : 0;
+#if defined(H_PNGBAD) && defined(FAIL_FREAD) /* deterministic per query: a symbolic jump to the cleanup labels makes CBMC blow up (measured) */
+  return 0;
 #else
   return n;
 #endif
@@ -73,16 +73,16 @@ struct tm *localtime(const time_t *t) {
 /* ---- libpng (contract level) ---- */
 int png_sig_cmp(png_const_bytep sig, size_t start, size_t num) {
   (void)sig; (void)start; (void)num;
-#ifdef H_PNGBAD
-  return vin_range(0, 1);
+#if defined(H_PNGBAD) && defined(FAIL_SIG)
+  return 1;
 #else
   return 0;
 #endif
 }
 png_structp png_create_read_struct(png_const_charp v, png_voidp e, png_error_ptr ef, png_error_ptr wf) {
   (void)v; (void)e; (void)ef; (void)wf;
-#ifdef H_PNGBAD
-  if (vin_range(0, 1)) return NULL;
+#if defined(H_PNGBAD) && defined(FAIL_CREATE)
+  return NULL;
 #endif
   g_writing = 0; g_rrow = 0;
   return (png_structp)g_png_obj;
@@ -94,8 +94,8 @@ png_structp png_create_write_struct(png_const_charp v, png_voidp e, png_error_pt
 }
 png_infop png_create_info_struct(png_const_structrp p) {
   (void)p;
-#ifdef H_PNGBAD
-  if (vin_range(0, 1)) return NULL;
+#if defined(H_PNGBAD) && defined(FAIL_INFO)
+  return NULL;
 #endif
   return (png_infop)g_info_obj;
 }
@@ -104,12 +104,19 @@ void png_init_io(png_structrp p, png_FILE_p fp) { (void)p; VASSERT(fp == g_fh, "
 void png_set_sig_bytes(png_structrp p, int n) { (void)p; (void)n; }
 void png_read_info(png_structrp p, png_inforp i) {
   (void)p; (void)i;
-#ifdef H_PNGBAD
+#if defined(H_PNGBAD)
   if (vin_range(0, 1)) __CPROVER_assume(0); /* libpng error: longjmp / abort => process ends */
 #endif
 }
-png_uint_32 png_get_image_height(png_const_structrp p, png_const_inforp i) { (void)p; (void)i; return g_h; }
-png_uint_32 png_get_image_width(png_const_structrp p, png_const_inforp i) { (void)p; (void)i; return g_w; }
+#ifdef H_PNGBAD
+#define G_H PH
+#define G_W PW
+#else
+#define G_H g_h
+#define G_W g_w
+#endif
+png_uint_32 png_get_image_height(png_const_structrp p, png_const_inforp i) { (void)p; (void)i; return G_H; }
+png_uint_32 png_get_image_width(png_const_structrp p, png_const_inforp i) { (void)p; (void)i; return G_W; }
 png_byte png_get_bit_depth(png_const_structrp p, png_const_inforp i) { (void)p; (void)i; return (png_byte)g_depth; }
 png_byte png_get_channels(png_const_structrp p, png_const_inforp i) { (void)p; (void)i; return (png_byte)g_channels; }
 png_byte png_get_color_type(png_const_structrp p, png_const_inforp i) { (void)p; (void)i; return (png_byte)g_color; }
@@ -190,15 +197,17 @@ void harness(void) {
 void harness(void) {
   verif_die_expected = 1;
   g_w = PW; g_h = PH;
-  g_depth = (unsigned)vin_range(1, 16);
-  VASSUME(g_depth == 1 || g_depth == 2 || g_depth == 4 || g_depth == 8 || g_depth == 16);
-  g_color = (unsigned)vin_range(0, 6);
-  VASSUME(g_color == 0 || g_color == 2 || g_color == 3 || g_color == 4 || g_color == 6);
-  VASSUME(!(g_color == 3 && g_depth == 16));
-  VASSUME(!((g_color == 2 || g_color == 4 || g_color == 6) && g_depth < 8));
+  /* bit depth and colour type are enumerated by the plan (every combination the PNG specification
+   * allows): a symbolic row length makes CBMC generate out-of-object writes under infeasible guards
+   * (10 GB within seconds, measured) */
+  g_depth = PDEPTH;
+  g_color = PCOLOR;
   g_channels = (g_color == 0 || g_color == 3) ? 1 : (g_color == 2 ? 3 : (g_color == 4 ? 2 : 4));
-  g_interlace = (unsigned)vin_range(0, 1);
+  g_interlace = PINTERLACE;
   mzd_t *B = mzd_from_png("f.png", 0);
+#if defined(FAIL_FREAD) || defined(FAIL_SIG) || defined(FAIL_CREATE) || defined(FAIL_INFO) || PINTERLACE
+  VASSERT(B == NULL, "unreadable / unsupported file is rejected with NULL");
+#endif
   if (B != NULL) {
     VASSERT(B->nrows == PH && B->ncols == PW, "a returned matrix has the image's dimensions");
     word e = 0;
